@@ -117,8 +117,24 @@ class Node:
         return self.kids
 
 
+class Leaf:
+    """an object without a tpValues method (a plain document among folders)"""
+    kids = ()
+
+    def __init__(self, id):
+        self.id = id
+
+    def tpId(self):
+        return self.id
+
+    def tpURL(self):
+        return self.id
+
+
 def shape(i):
     N = Node
+    if i == 6:
+        return N('r', [Leaf('l0'), N('f', [Leaf('l1'), N('g', [Leaf('l2')]), N('h', [N('h1')])]), Leaf('l3'), N('k', [Leaf('l4')])])
     if i == 0:
         return N('r', [N('a', [N('a1'), N('a2')]), N('b'), N('c', [N('c1', [N('c11')])])])
     if i == 1:
@@ -132,7 +148,7 @@ def shape(i):
     return N('r', [N('é', [N('日本', [N('ü')])]), N('with space', [N('q')])])
 
 
-NSHAPES = 6
+NSHAPES = 7
 T_TREE = HTML('<dtml-tree root>[<dtml-var tpId>]</dtml-tree>')
 T_TREE.cook()
 LINK = re.compile(r'<a name="([^"]*)" href="([^"?]*)\?tree-([ec])=([^"#]*)#')
@@ -293,7 +309,7 @@ OBLIGATIONS.append(Ob('real_roundtrip', ob_real_roundtrip, ['0 <= a < 12', '0 <=
                       data='-', selectors='states of depth 1..3 over ids %r' % ([str(i)[:12] for i in IDS],), outside='ids JSON cannot carry (bytes)'))
 OBLIGATIONS.append(Ob('big_state', ob_big_state, ['0 <= n <= 300'], timeout=tier(250, 900), data='number of sibling ids: every value 0..300', selectors='real zlib'))
 PRE = ['0 <= c%d < 8' % i for i in range(1, 6)]
-LQ = tier(3, 4)
+LQ = tier(4, 5)
 for _s in range(NSHAPES):
     OBLIGATIONS.append(Ob('clicks_shape%d' % _s, make_clicks_shape(_s, LQ), PRE, timeout=tier(280, 1500), path_timeout=60,
                           data='click history of %d steps: each step expand_all, collapse_all or one of the links the previous rendering produced' % LQ,
